@@ -42,7 +42,11 @@ ASSUMPTIONS = ["apt_pkg is absent: Version = NativeVersion (BaseVersion behaviou
                "(state kept anywhere else would leak between cases)"]
 
 ALPH = ["0", "9", "a", ".", "+", "~", "-", ":", "_", " ", "\n", "٣"]
-FOREIGN = ["_", " ", "\n", "٣", "é", "۴", "/", "*", "\t", "\r", "\x00", "="]
+# every ASCII character outside the three classes of the grammar (a character class written as a range can let any of
+# them in), the neighbours of the class boundaries, and some non-ASCII ones
+FOREIGN = ["_", " ", "\n", "٣", "é", "۴", "/", "*", "\t", "\r", "\x00", "=",
+           ",", "!", "\"", "#", "$", "%", "&", "'", "(", ")", ";", "<", ">", "?", "@", "[", "\\", "]", "^", "`", "{", "|", "}",
+           "\x7f", "\x0b", "\x0c", "\u00b2", "\uff11", "\u0660"]
 NAMES = ["epoch", "upstream_version", "debian_revision", "debian_version", "full_version"]
 GOOD = {"epoch": ["0", "1", "01", "12", "007"],
         "upstream_version": ["1.0", "2", "1.0~rc1", "a", "1+b", "0.9.9", "10"],
